@@ -236,7 +236,8 @@ impl Prop for Sessions {
             // second reference: "keeps its variables" - a line that failed to evaluate leaves no trace, so the same
             // history WITHOUT the lines that failed (other than first-time assignments, whose effect on a never-bound
             // name the statement does not define) must give the same results for the text just set
-            {
+            // (a line ending in a lone CR cannot be joined to the next one with LF without forming a CRLF separator)
+            if !clean[s].iter().chain(lines.iter()).any(|l| l.ends_with('\r')) {
                 let mut kept: Vec<String> = clean[s].clone();
                 kept.extend(lines.iter().cloned());
                 let r2 = match eval_on(&reference, "en", &kept.join("\n")) {
